@@ -19,7 +19,11 @@ func runDiscover(pat string) {
 		if !re.MatchString(k) {
 			continue
 		}
-		sig := guardSignature(fn, autoAccept(fn))
+		kind := autoAccept(fn)
+		if os.Getenv("GCV_ACCEPT") == "bool" && resultIndex(fn, AcceptTrueBool) >= 0 {
+			kind = AcceptTrueBool
+		}
+		sig := guardSignature(fn, kind)
 		fmt.Printf("%s  [%s] accept=%d nAccept=%d\n", k, p.Pos(fn.Pos()), sig.Accept, sig.NAccept)
 		for _, f := range sig.Sorted() {
 			fmt.Printf("    %s\n", f)
